@@ -61,6 +61,9 @@ E2E = {
     "tolerated-action-fails": (dict(b="bad?"), False),
     "cleanup-fails": (dict(cleanup="false"), True),
     "second-cleanup-fails": (dict(cleanup="test ! -e ../cleaned; rc=$?; touch ../cleaned; exit $rc"), True),
+    # a cleanup that fails the first time only (what it stumbles over is gone the second time) has failed
+    "only-first-cleanup-fails": (dict(cleanup="test -e ../cleaned; rc=$?; touch ../cleaned; exit $rc"), True),
+    "only-first-cleanup-killed-by-signal": (dict(cleanup="test -e ../cleaned || { touch ../cleaned; kill -TERM $$; }"), True),
     "spotlight-fails": (dict(spot="exit 3"), True),
     "auditor-disappointed": (dict(aud="  al expects always: [x s] < 5"), True),
     "auditor-disappointed-ignored": (dict(aud="  al expects always: [x s] < 5",
@@ -79,6 +82,15 @@ E2E = {
                                                  interp="interpretation\n  ignore caf\u00e9 disappointment\nend\n"), False),
     "unicode-auditor-satisfaction-foul-upon": (dict(aud="  \u0436\u0443\u043a expects always: [x s] < 50",
                                                    interp="interpretation\n  foul upon \u0436\u0443\u043a satisfaction\nend\n"), True),
+    # names are case-sensitive: a clause names the member spelled exactly so
+    "capitalised-auditor-disappointed-ignored": (dict(aud="  Al expects always: [x s] < 5",
+                                                     interp="interpretation\n  ignore Al disappointment\nend\n"), False),
+    "capitalised-auditor-satisfaction-foul-upon": (dict(aud="  LATENCY expects always: [x s] < 50",
+                                                       interp="interpretation\n  foul upon LATENCY satisfaction\nend\n"), True),
+    "case-sibling-auditors-clause-for-the-capitalised-one": (dict(aud="  Lat expects always: [x s] < 5\n  lat expects always: [x s] < 50",
+                                                                 interp="interpretation\n  ignore Lat disappointment\nend\n"), False),
+    "case-sibling-auditors-clause-for-the-lower-case-one": (dict(aud="  Lat expects always: [x s] < 5\n  lat expects always: [x s] < 50",
+                                                                interp="interpretation\n  ignore lat disappointment\nend\n"), True),
     # a member that `only helps` (no plot box) is judged like any other
     "only-helps-auditor-disappointed": (dict(aud="  al expects always: [x s] < 5\n  al only helps"), True),
     "only-helps-auditor-required-satisfaction-missing": (dict(aud="  al audits only while mood == 'green'\n  al expects always: [x s] < 50\n  al only helps\n  bo expects always: [x s] < 5\n  bo only helps",
